@@ -201,8 +201,86 @@ def plan_c04(pid, rng, quick):
                      "props": ["C04"], "mode": 0, "nowire": True})
     return plan
 
+RELABEL = {"traces": ["SPANS", "SPAN_ATTRS", "SPAN_EVENTS", "RESOURCE_ATTRS", "LOGS", "UNKNOWN"],
+           "logs": ["LOGS", "LOG_ATTRS", "RESOURCE_ATTRS", "SPANS", "UNKNOWN"],
+           "metrics": ["UNIVARIATE_METRICS", "NUMBER_DATA_POINTS", "NUMBER_DP_ATTRS", "RESOURCE_ATTRS", "SPANS", "UNKNOWN"]}
+
+def fault_alphabet(signal, positions):
+    ops = []
+    for i in positions:
+        for t in RELABEL[signal]:
+            ops.append(["relabel", i, t])
+        ops += [["drop", i], ["dup", i], ["empty", i], ["unknownSid", i], ["staleSid", i]]
+        for j in positions:
+            if j > i:
+                ops.append(["swap", i, j])
+    return ops
+
+def plan_c07(pid, rng, quick):
+    """Every valid prefix (0-3 batches, so readers and dictionaries are in arbitrary states), then one batch altered by
+    1-2 payload-level faults, then optionally a valid follow-up batch (the two-step histories)."""
+    plan = []
+    positions = [0, 1, 2, 5] if quick else [0, 1, 2, 3, 5, 8]
+    for signal in ("traces", "logs", "metrics"):
+        alphabet = fault_alphabet(signal, positions)
+        for prefix in ((0, 1, 2) if quick else (0, 1, 2, 3)):
+            for op in alphabet:
+                for follow in (0, 1):
+                    if quick and rng.random() < 0.45:
+                        continue
+                    bs = []
+                    for k in range(prefix):
+                        bs.append(otap.rand_batch(rng, rich=rng.choice([1, 2, 2]), twins=False, size="small"))
+                    fb = otap.rand_batch(rng, rich=2, twins=False, size="small")
+                    fb["maxItems"] = 3
+                    fb["faults"] = [op]
+                    bs.append(fb)
+                    for k in range(follow):
+                        fo = otap.rand_batch(rng, rich=rng.choice([1, 2]), twins=False)
+                        if rng.random() < 0.4:   # another signal: every sub-stream of the follow-up is new
+                            fo["signal"] = rng.choice([x for x in ("traces", "logs", "metrics") if x != signal])
+                        bs.append(fo)
+                    plan.append({"id": "fault/%s/p%d/%s/f%d" % (signal, prefix, "-".join(map(str, op)), follow),
+                                 "signal": signal, "opts": {}, "batches": bs, "props": [], "mode": 0, "nowire": True})
+        # pairs of faults
+        for i in range(60 if quick else 1500):
+            prefix = rng.choice([0, 1, 2])
+            bs = [otap.rand_batch(rng, rich=rng.choice([1, 2]), twins=False) for _ in range(prefix)]
+            fb = otap.rand_batch(rng, rich=2, twins=False)
+            fb["faults"] = [rng.choice(alphabet), rng.choice(alphabet)]
+            bs.append(fb)
+            if rng.random() < 0.5:
+                bs.append(otap.rand_batch(rng, rich=2, twins=False))
+            plan.append({"id": "fault2/%s/%d" % (signal, i), "signal": signal, "opts": {}, "batches": bs, "props": [],
+                         "mode": 0, "nowire": True})
+        # healthy streams: a well-formed batch on a healthy stream is decoded completely
+        for i in range(20 if quick else 300):
+            plan.append(otap.rand_stream(rng, "healthy/%s/%d" % (signal, i), signal, []))
+    return plan
+
+def plan_c14(pid, rng, quick):
+    """The same stream fed to consumers with limits from a few bytes to the default 70 MiB."""
+    plan = []
+    ladder = [16, 256, 1024, 4096, 16384, 65536, 262144, 1 << 20, 4 << 20, 70 << 20]
+    for i in range(40 if quick else 600):
+        signal = rng.choice(["traces", "logs", "metrics"])
+        st = otap.rand_stream(rng, "limit/%s/%d" % (signal, i), signal, [], nb=rng.choice([2, 3, 5]),
+                              size=rng.choice(["small", "medium", "large"]))
+        st["limits"] = ladder
+        st["nowire"] = True
+        plan.append(st)
+    # dictionary-heavy streams: retained dictionaries count against the limit
+    for i in range(12 if quick else 120):
+        signal = rng.choice(["traces", "logs", "metrics"])
+        bs = ramp_history(rng, signal, rng.choice(["overflow", "cross"]), rng.choice([255, 2000]), rng.choice([4, 6]))
+        for b in bs:
+            b["nodump"] = True
+        plan.append({"id": "limit-dict/%s/%d" % (signal, i), "signal": signal, "opts": {}, "batches": bs, "props": [],
+                     "mode": 0, "nowire": True, "limits": ladder})
+    return plan
+
 PLANS = {"C01": plan_roundtrip, "C02": plan_roundtrip, "C03": plan_roundtrip, "C08": plan_c08, "C15": plan_c15,
-         "C12": plan_wire, "C13": plan_wire, "C04": plan_c04}
+         "C12": plan_wire, "C13": plan_wire, "C04": plan_c04, "C07": plan_c07, "C14": plan_c14}
 
 def fixed_plans(pid):
     out = []
